@@ -1321,7 +1321,7 @@ func (r *rnRun) followers() {
 		return
 	}
 	// keep the quick tier affordable: all three schedules on short chains, two on long ones
-	if len(chainA) > 250 {
+	if len(chainA) > 300 {
 		scheds = scheds[1:]
 	}
 	for _, sc := range scheds {
